@@ -138,6 +138,7 @@ def main(argv: list[str] | None = None) -> int:
 	ap.add_argument('--update-baseline', action='store_true')
 	ap.add_argument('--verbose', '-v', action='store_true')
 	ap.add_argument('--only')
+	ap.add_argument('--strict', action='store_true', help='developer mode: any undecided obligation or engine error on this tree is an exit 3')
 	a = ap.parse_args(argv)
 	tier = a.tier if a.tier in ('quick', 'thorough') else 'quick'
 	seed = int(os.environ.get('VERIF_SEED', '0') or 0)
@@ -369,7 +370,7 @@ def _main(prop: str, tier: str, seed: int, a: Any) -> int:
 		print(line)
 	if vio_lines:
 		return 1
-	if machinery:
+	if machinery or (a.strict and undecided):
 		return 3
 	if n_ob == 0 and not extras:
 		print('MACHINERY-FAULT: zero obligations generated')
